@@ -105,9 +105,9 @@ Definition xmm_ok (c : xmm_case) : bool := ok_vec (xc_level c) (xc_before c) (xc
 Record hook_xmm_case := { hx_hook : string; hx_before : list (Z * Z); hx_after : list (Z * Z) }.
 Definition w_ones : world :=
   {| w_regs := fun _ _ => 0; w_mem := fun _ _ => 0; w_zf := fun _ => false; w_glob := fun _ _ => 0;
-     w_xmm := fun _ _ => (18446744073709551615, 18446744073709551615); w_ctx := fun _ _ => 0; w_level := 2 |}.
+     w_xmm := fun _ _ => (18446744073709551615, 18446744073709551615); w_up := fun _ _ _ => 0; w_ctx := fun _ _ => 0; w_level := 2 |}.
 Definition hook_xmm_agrees (c : hook_xmm_case) : bool :=
-  list_eqb pair_eqb (firstn 8 (xlist (c_call_xmm w_ones (hx_hook c) 0 (xof (hx_before c))))) (firstn 8 (hx_after c)).
+  list_eqb pair_eqb (firstn 8 (xlist (c_call_xmm w_ones (hx_hook c) 0 (xof (hx_before c)) (fun _ _ => 0)))) (firstn 8 (hx_after c)).
 Definition hook_xmm_ok (c : hook_xmm_case) : bool := ok_xmm (hx_before c) (hx_after c).
 
 (* finish case: a prefix of a tree's operations, then tracing is told to finish and the function that owns
@@ -162,13 +162,20 @@ Definition sched_ok (c : sched_case) : bool :=
 (* hook-call case with whole vector registers: registers 0..15 (8 words each) when the stub calls the C wrapper and
    when it returns, while a libc stand-in reached from the hook overwrites every vector register and ends with
    vzeroupper (bits 0-127 all ones, everything above zero) *)
-Record hook_vec_case := { hv_level : nat; hv_hook : string; hv_before : list (list Z); hv_after : list (list Z) }.
+Record hook_vec_case := { hv_level : nat; hv_hook : string; hv_before : list (list Z); hv_after : list (list Z);
+                          hv_csr_before : Z; hv_csr_after : Z }.   (* MXCSR when the wrapper is called / returns *)
+(* what the libc stand-in leaves in MXCSR: round-toward-zero, precision flag raised *)
+Definition csr_clobber : Z := 24480.
 Definition ones := 18446744073709551615.
 Definition hook_call_vec (level : nat) (f : string) (x : vfile) : vfile :=
   let clobber : vfile := fun _ i => if Nat.ltb i 2 then ones else 0 in
   if xmm_leaf f then x
   else if xmm_wrapped f then arch_roundtrip_now level x (fun _ => 0) clobber
   else clobber.
+Definition hook_call_csr (f : string) (csr : Z) : Z :=
+  if xmm_leaf f then csr else if xmm_wrapped f then mxcsr_now csr csr_clobber else csr_clobber.
 Definition hook_vec_agrees (c : hook_vec_case) : bool :=
-  list_eqb wlist_eqb (firstn 8 (vlist (hook_call_vec (hv_level c) (hv_hook c) (vof (hv_before c))))) (firstn 8 (hv_after c)).
-Definition hook_vec_ok (c : hook_vec_case) : bool := ok_vec (hv_level c) (hv_before c) (hv_after c).
+  list_eqb wlist_eqb (firstn 8 (vlist (hook_call_vec (hv_level c) (hv_hook c) (vof (hv_before c))))) (firstn 8 (hv_after c))
+  && zeq (hook_call_csr (hv_hook c) (hv_csr_before c)) (hv_csr_after c).
+Definition hook_vec_ok (c : hook_vec_case) : bool :=
+  ok_vec (hv_level c) (hv_before c) (hv_after c) && zeq (hv_csr_before c) (hv_csr_after c).
